@@ -432,6 +432,7 @@ func pipelineExec(r *R, prog *pnode, plan *faultPlan, sc *pScript, checkLazy boo
 		func() {
 			defer func() {
 				if p := recover(); p != nil {
+					passThrough(p)
 					if p == sim.Killed {
 						panic(p)
 					}
@@ -1043,6 +1044,7 @@ func pipelineIteratorChecks(r *R, prog *pnode, X []int, pulls []map[int]int, sla
 	func() {
 		defer func() {
 			if p := recover(); p != nil {
+				passThrough(p)
 				if p == sim.Killed {
 					panic(p)
 				}
@@ -1156,6 +1158,7 @@ func pipelineXslices(r *R) {
 		func() {
 			defer func() {
 				if p := recover(); p != nil {
+					passThrough(p)
 					panicked = true
 					r.Violate("C07", "xslices/Chunk/panic/chunk-size-maxint", "xslices.Chunk(%v, math.MaxInt) panicked: %v (iterator.Chunk and stream.Chunk yield one chunk)", xs, p)
 				}
